@@ -199,16 +199,16 @@ func allowed(k string, idx int) []string {
 }
 
 type liveConn struct {
-	spec    ConnSpec
-	idx     int
-	nbc     *nbio.Conn
-	peer    net.Conn
-	udpPeer *net.UDPConn
-	dialCB  []error // one entry per callback invocation
-	dialMu  sync.Mutex
-	dialC   *nbio.Conn
+	spec              ConnSpec
+	idx               int
+	nbc               *nbio.Conn
+	peer              net.Conn
+	udpPeer           *net.UDPConn
+	dialCB            []error // one entry per callback invocation
+	dialMu            sync.Mutex
+	dialC             *nbio.Conn
 	expectEstablished bool
-	accepted net.Conn // dial: the listener's accepted socket
+	accepted          net.Conn // dial: the listener's accepted socket
 }
 
 func runCase(c Case) vlib.Result {
@@ -796,5 +796,6 @@ func gen(t *rapid.T) Case {
 func TestCheck(t *testing.T) {
 	r := vlib.NewRunner(t, "C03")
 	vlib.RunCheck(r, vlib.Check[Case]{Name: "lifecycle", N: r.Pick(400, 10000), Gen: gen, Run: runCase, Confirm: true, RecordCurrent: true})
+	vlib.RunCheck(r, vlib.Check[Churn]{Name: "churn", N: r.Pick(160, 4000), Gen: genChurn, Run: runChurn, Confirm: true, RecordCurrent: true})
 	r.Finish()
 }
